@@ -57,7 +57,12 @@ def check_pair(case):
     labels, nt = _labels(spec, r1, r2)
     two_by_two = W.shape == (2, 2)
     labels.append("2x2" if two_by_two else "general")
-    got = bool(confidence_region_check_dominates(order, gr.mk_rect(r1), gr.mk_rect(r2)))
+    if case.get("first"):  # objects used in a comparison before they were moved / refined to the case's rectangles
+        R1, R2, r1, r2 = gr.region_pair(case, "rect", lambda a, b: confidence_region_check_dominates(order, a, b))
+        labels.append("refined-by:" + case["first"].get("mode", "update"))
+    else:
+        R1, R2 = gr.mk_rect(r1), gr.mk_rect(r2)
+    got = bool(confidence_region_check_dominates(order, R1, R2))
     lb, ub = pess_margin(W, r1, r2)
     scale = gr.region_scale(r1, r2)
     tau = 1e-9 * scale
@@ -163,6 +168,15 @@ def st_pair(draw, two=False):
 
 
 @st.composite
+def st_pair_updated(draw):
+    case = draw(st_pair(draw(st.booleans())))
+    m = len(case["r1"]["lo"])
+    sc = max(1e-6, float(np.max(np.array(case["r1"]["hi"]) - np.array(case["r1"]["lo"]))))
+    case["first"] = draw(gr.st_first_pair("rect", m, sc))
+    return case
+
+
+@st.composite
 def st_family(draw):
     two = draw(st.booleans())
     spec = draw(st.one_of(gen.st_theta(), st.just({"kind": "comp", "m": 2}), gen.st_diag_cone(2, 0)) if two else gen.st_cone(max_extra=2))
@@ -193,6 +207,9 @@ COMPONENTS = [
               rule="two-facet 2-D cones (theta in (1,179), orthant, dyadic and unit-normal 2x2)"),
     Component("pair_all_cones_sound", check_pair, strategy=lambda: st_pair(False), quick=1000, thorough=25000,
               rule="all cone classes incl. K>m and 3-4-D: soundness only"),
+    Component("pair_updated_objects", check_pair, strategy=st_pair_updated, quick=500, thorough=12000,
+              rule="region objects built for another pair (or, with intersect_iteratively=True, around the case's pair), compared once, "
+                   "then moved to the case's pair through update() / intersect(); completeness for 2x2 cones, soundness for all"),
     Component("pessimistic_set_consequence", check_family, strategy=st_family, quick=500, thorough=12000,
               rule="VOGP/EpsilonPAL.compute_pessimistic_set on 2..6 rectangles vs the set nobody pessimistically dominates"),
 ]
